@@ -4,9 +4,11 @@ import (
 	"bufio"
 	"fmt"
 	"os"
+	"runtime/debug"
 )
 
 func main() {
+	debug.SetMaxStack(256 << 20) // runaway recursion in a mutated parser fails fast
 	if len(os.Args) < 2 {
 		fmt.Fprintln(os.Stderr, "usage: drive run|gen|oracle ...")
 		os.Exit(2)
@@ -20,6 +22,7 @@ func main() {
 		sc.Buffer(make([]byte, 1<<20), 1<<26)
 		for sc.Scan() {
 			fmt.Fprintln(out, safeStep(sc.Text()))
+			out.Flush() // a crash must not lose the results already produced
 		}
 	default:
 		if !extraCommand(os.Args[1], os.Args[2:]) {
